@@ -3,3 +3,4 @@ set -e
 cd /verif
 ./mkoverlay.sh c13
 go build -tags verif -overlay build/c13.overlay.json -o "$1" ./h/c13
+/verif/h/c13s/build.sh /verif/build/c13s
